@@ -310,6 +310,24 @@ func c03(c *an.Ctx) {
 				f.AfterEdgesMustPass(r, edges, gen, "level change ⇒ genCompactPlan of the run collected so far")
 			}
 		}
+		if f := fn(r, I+":buildLevelMergeContext"); f != nil {
+			// sibling of mmsPlan for merge-self: a file of another merge level closes the run collected so far
+			newCtx := f.Find(an.MNode("ctx = NewMergeContext(...)", func(f *an.Fn, n ast.Node) bool {
+				as, ok := n.(*ast.AssignStmt)
+				if !ok || len(as.Rhs) != 1 {
+					return false
+				}
+				ce, ok := ast.Unparen(as.Rhs[0]).(*ast.CallExpr)
+				if !ok {
+					return false
+				}
+				cal := an.Callee(f.Info, ce)
+				return cal != nil && cal.Name() == "NewMergeContext"
+			}))
+			edges := f.GuardEdges(an.AtomLike(`^local\(\w+\)\.FileNameMerge\(\)==p2$`, false))
+			f.AfterEdgesMustPass(r, edges, newCtx, "merge-level change ⇒ a new merge context unless the current one is empty",
+				an.AtomLike(`^0<local\(\w+\)\.UnorderedLen\(\)$`, false), an.AtomLike(`^0==local\(\w+\)\.UnorderedLen\(\)$`, true))
+		}
 		if f := fn(r, I+":MmsTables.genCompactGroup"); f != nil {
 			f.BranchReturns(r, an.AtomLike(`^recv\.busy\(`, true), an.MReturn("nil", func(f *an.Fn, rs *ast.ReturnStmt) bool {
 				return len(rs.Results) == 1 && an.IsNilIdent(f.Info, rs.Results[0])
